@@ -2,6 +2,7 @@
 from vlib import runner
 import build
 from props.C15 import WRAP
+from props.C16 import WRAP as WRAP_WALK
 
 
 def run(ctx):
@@ -10,6 +11,10 @@ def run(ctx):
     ctx.run_space(b, "faults", ["full=%d" % (4 if ctx.thorough else 3), "leaks=1"], cpu_limit=120)
     if ctx.thorough:
         ctx.run_space(b, "faults", ["full=2", "leaks=1", "pairs=1"], cpu_limit=300)
+    # "for every archive": damaged archives too - cut at every offset, and every header byte substituted/deleted/duplicated
+    w = build.ensure_explorer("arc_walk", "asan", extra_ld=WRAP_WALK)
+    ctx.run_space(w, "kinds", ["prop=20", "stride=1", "leaks=1"], cpu_limit=60)
+    ctx.run_space(w, "mutate", ["leaks=1", "full=%d" % (1 if ctx.thorough else 0)], cpu_limit=120)
     ctx.assumptions += ["allocator hooks (--wrap=malloc,calloc,realloc,strdup,free) count the library's live allocations between reader creation and the return of lha_input_stream_free; FILE streams through --wrap=fopen,fdopen,fclose and open descriptors through fcntl",
                         "one decode operation per member and one extract per entry; after an injected allocation failure the history goes on but only memory safety and the release balance are judged"]
     return ctx.finish(
